@@ -4,6 +4,7 @@
    position of the -113 errors from the message text and the table alone. *)
 From Coq Require Import Bool List NArith ZArith Lia.
 From M Require LexModel MatchModel FmtModel UnitProgress UnitGeom.
+From M Require OpsGen.
 From M Require Import ParserModel Framing2 Dispatch Undefined.
 Import ListNotations.
 Local Open Scope Z_scope.
@@ -125,6 +126,23 @@ Proof.
   - destruct (cur c) as [[[pat tg] sc]|]; [|apply N_refl]. destruct (MatchModel.matchCommand _ _ _ _) as [r [a|]]; cbn [fst]; apply N_ev; reflexivity.
   - destruct (syst_err_parts c) as [[code info] q']. cbn [fst]. eapply N_trans; [|apply N_result_error]. eapply N_trans; [|apply N_emit_empty]. kr.
   - apply N_refl.
+  - apply N_result_int.
+  - apply N_result_int.
+  - apply N_result_int.
+  - apply N_result_int.
+  - apply N_item.
+  - apply N_item.
+  - apply N_item.
+  - destruct (cur c) as [[[pat tg] sc]|]; [|apply N_ev; reflexivity]. destruct (MatchModel.matchCommand _ _ _ _) as [r a]; cbn [fst]; apply N_ev; reflexivity.
+  - apply (OpsGen.R_result_array N N_refl N_trans N_result_int N_result_hdr N_result_data).
+  - pose proof (OpsGen.R_param_array N N_refl N_trans N_param_int N_param_fp ty (Z.to_nat cap) c m []) as H.
+    destruct (param_array _ _ c m []) as [[c1 m1] vals]; cbn [fst] in *. eapply N_trans; [exact H|apply N_ev; reflexivity].
+  - pose proof (N_parameter c m) as H. destruct (parameter c m) as [[c1 ok] t]; cbn [fst] in *. destruct ok; [|eapply N_trans; [exact H|apply N_ev; reflexivity]].
+    pose proof (OpsGen.R_expr_numlist N N_refl (fun c => N_error_push c (-170) None ltac:(discriminate)) (fun c => N_error_push c (-104) None ltac:(discriminate)) c1 t idx) as H2.
+    destruct (expr_numlist c1 t idx) as [c2 rep]; cbn [fst] in *. eapply N_trans; [exact H|]. eapply N_trans; [exact H2|apply N_ev; reflexivity].
+  - pose proof (N_parameter c m) as H. destruct (parameter c m) as [[c1 ok] t]; cbn [fst] in *. destruct ok; [|eapply N_trans; [exact H|apply N_ev; reflexivity]].
+    pose proof (OpsGen.R_expr_chanlist N N_refl (fun c => N_error_push c (-170) None ltac:(discriminate)) (fun c => N_error_push c (-104) None ltac:(discriminate)) c1 t idx cap) as H2.
+    destruct (expr_chanlist c1 t idx cap) as [c2 rep]; cbn [fst] in *. eapply N_trans; [exact H|]. eapply N_trans; [exact H2|apply N_ev; reflexivity].
 Qed.
 Lemma N_run_script s : forallb op_no113 s = true -> forall c d, N c (fst (run_script s c d)).
 Proof.
